@@ -22,6 +22,21 @@ Theorem C05_error_unchanged : forall h o h' e, model_step h o = (h', RDone (Some
 Proof. exact error_leaves_unchanged. Qed.
 Print Assumptions C05_error_unchanged.
 
+(* "deleted ids absent" for EVERY header, also one obtained from Unmarshal of a wire that names an id more
+   than once (C05_refines holds there too, but a map that holds a key twice is no ordered map: this is the
+   clause that still has to hold, and did not before the repair of D33 - the second element stayed) *)
+Theorem C05_deleted_absent : forall h id h', del_extension h id = (h', None) ->
+  get_extension h' id = None /\ (forall l, get_extension_ids h' = Some l -> ~ In id l).
+Proof. exact deleted_absent. Qed.
+Print Assumptions C05_deleted_absent.
+
+Example C05_deleted_absent_nonvacuous :
+  let wire := [144; 96; 0; 1; 0; 0; 0; 2; 0; 0; 0; 3; 16; 0; 0; 2; 5; 1; 170; 5; 2; 187; 204; 0] in
+  exists r h', header_unmarshal_into empty_header wire = Ok r /\
+    get_extension_ids (hr_header r) = Some [5; 5] /\
+    del_extension (hr_header r) 5 = (h', None) /\ get_extension_ids h' = None /\ get_extension h' 5 = None.
+Proof. do 2 eexists. split; [vm_compute; reflexivity|]. repeat split; vm_compute; reflexivity. Qed.
+
 (* no call panics (the accessors are total functions in the model) and neither does a following
    Marshal, for any header whatsoever *)
 Theorem C05_marshal_total : forall h p, header_marshal h <> Panic /\ packet_marshal p <> Panic.
@@ -35,10 +50,12 @@ Proof. exact run_preserves_inv. Qed.
 Print Assumptions C05_reachable_inv.
 
 (* ... under which every value the accessors report is returned unchanged by GetExtension after
-   Marshal and Unmarshal; Marshal may refuse only a legacy value that is not whole 32-bit words *)
+   Marshal and Unmarshal; Marshal may refuse only a legacy value that is not whole 32-bit words.
+   (No bound on the size of the value is assumed: since the repair of D32 SetExtension refuses a legacy value
+   of more than 65535 words, the largest the 16-bit length field can count, and exts_inv records it.) *)
 Theorem C05_wire : forall h id v,
   fixed_ok h -> extension h = true -> exts_inv h ->
-  get_extension h id = Some v -> zlen v < 262144 ->
+  get_extension h id = Some v ->
   (header_marshal h = Err EShortBuffer /\ zlen v mod 4 <> 0 /\
    extension_profile h <> profile_one_byte /\ extension_profile h <> profile_two_byte)
   \/ (exists bs r, header_marshal h = Ok bs /\ header_unmarshal_into empty_header bs = Ok r /\
